@@ -4,6 +4,7 @@ import (
 	"bytes"
 	"fmt"
 	"regexp"
+	"strings"
 )
 
 type Matcher struct {
@@ -134,6 +135,10 @@ func (m *Matcher) MatchRegexAndExpand(key, template []byte) (string, bool) {
 // regexToPrefix inspects the regex and returns the longest static prefix part of the regex
 // all inputs for which the regex match, must have this prefix
 func regexToPrefix(regex string) []byte {
+	// with an alternation the regex can also match inputs that don't start with the prefix of its first branch
+	if strings.IndexByte(regex, '|') >= 0 {
+		return nil
+	}
 	substr := ""
 	for i := 0; i < len(regex); i++ {
 		ch := regex[i]
@@ -151,7 +156,10 @@ func regexToPrefix(regex string) []byte {
 			substr += "."
 			i += 1
 		} else {
-			//fmt.Println("don't know what to do with", string(ch))
+			// a quantifier makes the character right before it optional, so that character is not part of the static prefix
+			if (ch == '*' || ch == '?' || ch == '{') && len(substr) > 0 {
+				substr = substr[:len(substr)-1]
+			}
 			// anything more advanced should be regex syntax that is more permissive and hence not a static substring.
 			break
 		}
